@@ -783,7 +783,14 @@ class TreeGitStore(GitStore):
             with open(p, "rb") as f:
                 current_blob = Blob.from_string(f.read())
         except FileNotFoundError as exc:
-            raise NoSuchItem(name) from exc
+            # An interrupted delete may have removed the file while the index
+            # (which is what gets listed and served) still has the item.
+            try:
+                current_blob = self.repo.object_store[
+                    self._get_etag(name).encode("ascii")
+                ]
+            except KeyError:
+                raise NoSuchItem(name) from exc
         except IsADirectoryError as exc:
             raise NoSuchItem(name) from exc
         if message is None:
@@ -796,7 +803,10 @@ class TreeGitStore(GitStore):
                 raise InvalidETag(name, etag, current_etag.decode("ascii"))
         try:
             with locked_index(self.repo.index_path()) as index:
-                os.unlink(p)
+                try:
+                    os.unlink(p)
+                except FileNotFoundError:
+                    pass
                 del index[name.encode(DEFAULT_ENCODING)]
                 self._commit_tree(
                     index, message.encode(DEFAULT_ENCODING), author=author
